@@ -172,7 +172,7 @@ class Case:
 
 def make_cases(ctx):
     from ..gen import progen
-    n = ctx.n(60, 4000)
+    n = ctx.n(40, 4000)
     samples = [s for s in mutate.sample_files()]
     cases = []
     for k in range(n):
